@@ -6,6 +6,7 @@ import (
 	"bufio"
 	"encoding/hex"
 	"fmt"
+	"strings"
 )
 
 type rng struct{ s uint64 }
@@ -79,18 +80,25 @@ func (g *gen) property(p string) bool {
 	switch p {
 	case "C01":
 		g.genQR()
+		g.stageQR()
 	case "C02":
 		g.genDM()
+		g.stageDM()
 	case "C03":
 		g.genAztec()
+		g.stageAztec()
 	case "C04":
 		g.genPDF()
+		g.stagePDF()
 	case "C05":
 		g.genC128()
+		g.stageC128()
 	case "C06":
 		g.genEAN(true)
+		g.stageEAN()
 	case "C07":
 		g.genC39C93()
+		g.stageC39C93()
 	case "C08":
 		g.genCodabar()
 		g.genTof()
@@ -145,6 +153,27 @@ func (g *gen) genEAN(malformed bool) {
 						g.emit("ean %s", hx(full))
 					}
 				}
+			}
+		}
+		// extreme weighted sums: one repeated digit (sum 0 for zeros, the maximum for nines), a single non-zero digit
+		// among zeros (sums 1..27), each as data, completed, and with every final digit (seed s01: a check-digit
+		// formula that is only wrong for the weighted sum 0)
+		for d := 0; d < 10; d++ {
+			b := strings.Repeat(string(rune('0'+d)), n)
+			g.emit("ean %s", hx(b))
+			g.emit("ean %s", hx(b+string(rune('0'+d))))
+			for c := 0; c < 10; c++ {
+				if d == 0 || d == 9 || c == int(gs1(b)-'0') {
+					g.emit("ean %s", hx(b+string(rune('0'+c))))
+				}
+			}
+		}
+		for pos := 0; pos < n; pos++ {
+			for d := 1; d < 10; d++ {
+				b := []byte(strings.Repeat("0", n))
+				b[pos] = byte('0' + d)
+				g.emit("ean %s", hx(string(b)))
+				g.emit("ean %s", hx(string(b)+string(gs1(string(b)))))
 			}
 		}
 		for i := 0; i < g.n(200, 5000); i++ {
